@@ -11,6 +11,7 @@ CONSTANTS
   QCap = 2
   Gating = TRUE
   QfRet = TRUE
+  LexG = "full"
 INVARIANT InvAllClauses
 INVARIANT InvNeverStuck
 INVARIANT InvDelivered
